@@ -459,10 +459,14 @@ def observe(ctx, env, M, obj, oid, path, touch=True):
     ok = True
     if got != want and not bracket_explicit(o, got):
         ok = False
-        if seed:
+        if seed and not seed_path(path):
+            # pony loads polymorphic seeds on these paths (Attribute.get, query results, lookups): a seed here is a defect
+            ctx.violation(witness(env, M, path=path, oid=oid, created_as=want, seen_as=got, seed=True),
+                          mechanism='seed-with-declared-class-on-a-path-that-loads-seeds')
+        elif seed:
             obj.load()
             if type(obj).__name__ == want:
-                ctx.count('finding.seed_declared_class')
+                ctx.count('finding.seed_declared_class'); ctx.count('finding.seed_declared_class@' + path)
                 ctx.finding(F_SEED, witness(env, M, path=path, oid=oid, created_as=want, seen_as=got,
                                             manifestation='type(obj) / isinstance(obj, Sub) wrong while pk-only seed',
                                             repro=repro_seed(env, M, oid, path)))
@@ -490,6 +494,11 @@ def observe(ctx, env, M, obj, oid, path, touch=True):
                           mechanism='wrong-class-after-attribute-access')
             ok = False
     return ok
+
+
+def seed_path(path):
+    """Paths on which pony hands out pk-only seeds without loading them (the scope of F_SEED)."""
+    return (path.startswith('coll_') and path.endswith('.m2m')) or path == 'prefetch.coll' or path.startswith('mixed.')
 
 
 def bracket_explicit(o, got):
@@ -1195,7 +1204,13 @@ def run_spec(ctx, spec, pop_seed, quick, only=None):
     ctx.count('databases'); ctx.count('shape.' + spec['shape'])
     for r in spec['roots']:
         if r['name'] != 'Owner': ctx.count('pk.' + r['pk']); ctx.count('discr.' + r['discr'])
-    M = populate(ctx, env, rng, 2 if quick else 3)
+    try: M = populate(ctx, env, rng, 2 if quick else 3)
+    except Exception:
+        import traceback
+        ctx.violation({'spec': spec, 'pop': pop_seed, 'path': 'populate', 'error': traceback.format_exc()[-1800:]},
+                      mechanism='unexpected-exception-in-populate')
+        clean_session(); env.db.disconnect()
+        return
     preseed, preseed_all = make_preseed(env, M)
     steps = [
         ('direct', lambda: paths_direct(ctx, env, M)),
@@ -1243,15 +1258,19 @@ def run(ctx):
         run_spec(ctx, spec, idx, quick)
     k = 1 if quick else 1.4
     ctx.floor('databases', int(n * 0.8))
-    ctx.floor('type_checks', int(9000 * k))
-    ctx.floor('seeds_observed', int(150 * k))
-    ctx.floor('polymorphic_reads', int(1500 * k))
-    ctx.floor('isinstance_queries', int(4000 * k))
-    ctx.floor('isinstance_ref_queries', int(400 * k))
-    ctx.floor('subattr_queries', int(400 * k))
-    ctx.floor('path.unpickle', int(60 * k))
-    ctx.floor('path.proxy', int(60 * k))
-    ctx.floor('lookup.mixed.getitem', int(300 * k))
+    ctx.floor('type_checks', int(20000 * k))
+    ctx.floor('seeds_observed', int(400 * k))
+    ctx.floor('polymorphic_reads', int(2000 * k))
+    ctx.floor('set_checks', int(2000 * k))
+    ctx.floor('isinstance_queries', int(6000 * k))
+    ctx.floor('isinstance.agree', int(6000 * k))
+    ctx.floor('isinstance_ref_queries', int(1500 * k))
+    ctx.floor('subattr_queries', int(2000 * k))
+    ctx.floor('path.unpickle', int(80 * k))
+    ctx.floor('path.proxy', int(100 * k))
+    ctx.floor('path.fk_nav', int(60 * k))
+    ctx.floor('lookup.mixed.getitem', int(400 * k))
+    ctx.floor('outcome.agree', int(12000 * k))
 
 
 def replay(ctx, witness):
